@@ -17,6 +17,20 @@ bScss    == <<116,101,120,116,47,120,45,115,99,115,115>>                        
 InlineParams == << <<bInline, b1>> >>
 NoParams == <<>>
 
+Lower(c) == IF c >= 65 /\ c <= 90 THEN c + 32 ELSE c
+\* minify.Mediatype, as documented: "removing all whitespace and lowercasing all parts except strings"
+\* (quoted strings keep their bytes; a backslash inside a string escapes the next byte)
+NormStep(s, c) ==
+  IF s.str THEN
+       IF s.esc THEN [s EXCEPT !.esc = FALSE, !.out = Append(s.out, c)]
+       ELSE IF c = 92 THEN [s EXCEPT !.esc = TRUE, !.out = Append(s.out, c)]
+       ELSE IF c = 34 THEN [s EXCEPT !.str = FALSE, !.out = Append(s.out, c)]
+       ELSE [s EXCEPT !.out = Append(s.out, c)]
+  ELSE IF c \in {32, 9, 10, 12, 13} THEN s
+  ELSE IF c = 34 THEN [s EXCEPT !.str = TRUE, !.out = Append(s.out, c)]
+  ELSE [s EXCEPT !.out = Append(s.out, Lower(c))]
+NormMediatype(b) == FoldLeft(NormStep, [str |-> FALSE, esc |-> FALSE, out |-> <<>>], b).out
+
 ElementKinds == {"script", "style", "iframe"}
 HtmlKinds == ElementKinds \cup {"svg", "math", "styleAttr", "onAttr", "dataUriAttr"}
 SvgKinds == {"svgStyleText", "svgStyleCdata", "svgStyleAttr"}
@@ -29,8 +43,10 @@ DataUriKinds == {"dataUriAttr", "cssDataUri"}
    data: URI -> its own media type (text/plain when absent, RFC 2397), SVG style element/
    attribute -> text/css.  A type attribute is split into mimetype and parameters. *)
 ExpectedType(kind, hasType, type, mt) ==
-  CASE kind = "script"  -> IF hasType /\ type # <<>> THEN Split(type) ELSE [mime |-> bJs, params |-> NoParams]
-    [] kind = "style"   -> IF hasType /\ type # <<>> THEN Split(type) ELSE [mime |-> bTextCss, params |-> NoParams]
+  \* (HTML media types are case-insensitive: the type attribute is taken in its normalised form, which is also the
+  \*  form in which the attribute is emitted; for the parameters see AltParams)
+  CASE kind = "script"  -> IF hasType /\ type # <<>> THEN Split(NormMediatype(type)) ELSE [mime |-> bJs, params |-> NoParams]
+    [] kind = "style"   -> IF hasType /\ type # <<>> THEN Split(NormMediatype(type)) ELSE [mime |-> bTextCss, params |-> NoParams]
     [] kind = "iframe"  -> [mime |-> bHtml, params |-> NoParams]
     [] kind = "svg"     -> [mime |-> bSvg, params |-> InlineParams]
     [] kind = "math"    -> [mime |-> bMathml, params |-> NoParams]
@@ -40,6 +56,13 @@ ExpectedType(kind, hasType, type, mt) ==
     [] kind \in {"svgStyleText", "svgStyleCdata"} ->
          IF hasType /\ type # <<>> THEN Split(type) ELSE [mime |-> bTextCss, params |-> NoParams]
     [] kind = "svgStyleAttr" -> [mime |-> bTextCss, params |-> InlineParams]
+
+\* The property fixes which minifier is chosen from the type attribute, not the letter case in which parameter
+\* values reach it: the parameters of the attribute text as written are accepted as well as those of its normalised form
+AltParams(kind, hasType, type) ==
+  IF kind \in {"script", "style"} /\ hasType /\ type # <<>> THEN Split(type).params
+  ELSE <<>>
+HasAlt(kind, hasType, type) == kind \in {"script", "style"} /\ hasType /\ type # <<>>
 
 \* test fixture shared with the driver: "S<sid>:" followed by the payload without blanks and newlines
 StubOut(sid, payload) == <<83, 48 + sid, 58>> \o SelectSeq(payload, LAMBDA c : c # 32 /\ c # 10)
